@@ -3,9 +3,11 @@
 REAL domain: the real reb_boundary_check is executed from LLVM IR with symbolic box sizes, positions, velocities, OMEGA and t.
 Positions are assumed within (W + 1/2) box lengths (W = 2 quick / 4 thorough wraps per axis, unwinding assertion), every
 path through the wrap loops is explored.  PERIODIC / SHEAR: afterwards every coordinate lies inside the box, N is unchanged,
-each coordinate changed by an integer number of box lengths (for SHEAR: plus the documented azimuthal offset per radial
-crossing, with v_y shifted by -/+ 3/2 OMEGA L_x per crossing).  OPEN: exactly the particles outside the box are removed and
-the survivors are untouched.  reb_boundary_get_ghostbox equals its definition for i,j,k in {-1,0,1}.
+each coordinate changed by an integer number of box lengths (for SHEAR: a particle wrapped by n boxes in x lands on its own
+ghost image: v_y shifted by -3/2 n OMEGA L_x and y by -3/2 n OMEGA L_x t modulo L_y, the fmod quotients of the code serving as
+integer witnesses).  OPEN: exactly the particles outside the box are removed and
+the survivors are untouched.  reb_boundary_get_ghostbox equals its definition for i,j,k in {-1,0,1} (SHEAR: x = i Lx, v_y = -3/2 i OMEGA Lx, y = j Ly + v_y t
+modulo Ly; a refuted obligation is replayed on the native function).
 Tree part: particles with symbolic positions and masses are inserted into the real tree (one root box; depth bounded by a minimum
 separation), every path of the octant selection is explored; on each: every particle sits in exactly one leaf whose cell contains it,
 inner cells count their particles and carry their total mass and centre of mass, cells are octants of their parents; the tree force with
@@ -76,6 +78,14 @@ def run_wrap(u):
             else:
                 ob.prove("particle %d: radial wraps shift v_y by -3/2 OMEGA L_x per box length moved" % i,
                          z3.Or(*[z3.And(new['x'] == V[(i, 'x')] + n * box[0], new['vy'] == V[(i, 'vy')] - n * z3.RealVal('3/2') * OM * box[0]) for n in rng]), pc, on_sat=on_sat, domain='REAL')
+                # a particle wrapped by n boxes in x lands on its own ghost image (reb_boundary_get_ghostbox): y moves by -3/2 n OMEGA L_x t
+                # modulo L_y.  The integer witnesses are the quotients of the fmod calls the code made and the azimuthal wrap count.
+                A = z3.RealVal('3/2') * OM * box[0] * V[('t', '')]
+                qs = [z3.ToReal(q) for (_a, _b, _t, q) in getattr(dom, 'fmodq', [])]
+                cands = [z3.RealVal(0)] + [s_ * (q + d) for q in qs for d in (-1, 0, 1) for s_ in (1, -1)]
+                ob.prove("particle %d: y moves by -3/2 n OMEGA L_x t modulo L_y for n radial wraps (the ghost-image offset)" % i,
+                         z3.Or(*[z3.And(new['x'] == V[(i, 'x')] + n * box[0], new['y'] == V[(i, 'y')] - n * A + (abs(n) * c + m) * box[1]) for n in rng for c in (cands if n else cands[:1]) for m in rng]),
+                         pc, on_sat=on_sat, domain='REAL')
                 ob.prove("particle %d: z changed by whole box lengths, vx and vz untouched" % i,
                          z3.And(z3.Or(*[new['z'] == V[(i, 'z')] + n * box[2] for n in rng]), new['vx'] == V[(i, 'vx')], new['vz'] == V[(i, 'vz')]), pc, on_sat=on_sat, domain='REAL')
         def wit(model):
@@ -109,6 +119,9 @@ def native_wrap(u, vals):
                 dvy = ns.particle(i).get('vy') - vals['vy%d' % i]
                 want = -round(nx) * 1.5 * vals.get('OMEGA', 1.0) * vals['Lx']
                 if abs(dvy - want) > 1e-9 * (abs(want) + abs(vals['vy%d' % i]) + 1e-300): bad.append("particle %d: v_y changed by %r after %d radial wraps, expected %r" % (i, dvy, round(nx), want))
+                Aval = 1.5 * vals.get('OMEGA', 1.0) * vals['Lx'] * vals.get('t', 0.0)
+                ny = (ns.particle(i).get('y') - vals['y%d' % i] + round(nx) * Aval) / vals['Ly']
+                if abs(ny - round(ny)) > 1e-6 * (1 + abs(Aval / vals['Ly'])): bad.append("particle %d: y moved by %r, which is not -3/2*n*OMEGA*Lx*t = %r modulo Ly=%r (n=%d radial wraps)" % (i, ns.particle(i).get('y') - vals['y%d' % i], -round(nx) * Aval, vals['Ly'], round(nx)))
         if ns.get('N') != u['N']: bad.append("N changed to %d" % ns.get('N'))
         else:
             for i in range(u['N']):
@@ -193,8 +206,45 @@ def run_ghost(u):
             I.call('@reb_boundary_get_ghostbox', [o, sim.ptr] + [v & 0xffffffff for v in ijk])
             g = [dom.z(I.mem.load(Ptr(o.obj, 8 * q), F64)) for q in range(6)]
             ob.prove("%s ghostbox%r == (i Lx, j Ly, k Lz, 0, 0, 0)" % (kind, ijk), z3.And(g[0] == ijk[0] * box[0], g[1] == ijk[1] * box[1], g[2] == ijk[2] * box[2], g[3] == 0, g[4] == 0, g[5] == 0), [], domain='REAL')
+    # SHEAR: the ghost box i boxes away in x moves with v_y = -3/2 i OMEGA L_x and sits at y = v_y t modulo L_y (plus j L_y)
+    sim.set('boundary', L.enumerators['REB_BOUNDARY_SHEAR'])
+    OM, tt = dom.fresh('OMEGA'), dom.fresh('t'); sim.set('ri_sei.OMEGA', OM); sim.set('t', tt)
+    ctx.assume(box[1] > 0)
+    for ijk in itertools.product((-1, 0, 1), repeat=3):
+        o = I.mem.alloc(48, 'gb', 'harness', zero=True)
+        I.call('@reb_boundary_get_ghostbox', [o, sim.ptr] + [v & 0xffffffff for v in ijk])
+        g = [dom.z(I.mem.load(Ptr(o.obj, 8 * q), F64)) for q in range(6)]
+        qs = [z3.ToReal(q) for (_a, _b, _t, q) in getattr(dom, 'fmodq', [])]
+        cands = [z3.RealVal(0)] + [s_ * (q + d) for q in qs for d in (-1, 0, 1) for s_ in (1, -1)]
+        vy = -z3.RealVal('3/2') * ijk[0] * OM * box[0]
+        def on_sat(model, ijk=ijk):
+            vals = {str(t): float(model_value(model, t)) for t in box + [OM, tt]}
+            ok, detail = native_ghost(ijk, vals)
+            return ok, 'C15:ghostbox:SHEAR', detail, dict(unit=u, ijk=list(ijk), vals=vals)
+        ob.prove("SHEAR ghostbox%r: x = i Lx, z = k Lz, v = (0, -3/2 i OMEGA Lx, 0)" % (ijk,), z3.And(g[0] == ijk[0] * box[0], g[2] == ijk[2] * box[2], g[3] == 0, g[4] == vy, g[5] == 0), list(ctx.pc) + list(dom.axioms), on_sat=on_sat, domain='REAL')
+        ob.prove("SHEAR ghostbox%r: y = j Ly + v_y t modulo Ly" % (ijk,), z3.Or(*[g[1] == ijk[1] * box[1] + vy * tt + c * box[1] for c in cands]), list(ctx.pc) + list(dom.axioms), on_sat=on_sat, domain='REAL')
     rep.add_interp(I)
     return rep
+
+class _Vec6(ctypes.Structure):
+    _fields_ = [(c, ctypes.c_double) for c in ('x', 'y', 'z', 'vx', 'vy', 'vz')]
+
+def native_ghost(ijk, vals):
+    N_ = nat(); L = N_.L; ns = N_.create()
+    try:
+        for a in AX: ns.set('boxsize.' + a, vals['L' + a])
+        ns.set('boundary', L.enumerators['REB_BOUNDARY_SHEAR']); ns.set('ri_sei.OMEGA', vals['OMEGA']); ns.set('t', vals['t'])
+        f = N_.lib.reb_boundary_get_ghostbox; f.restype = _Vec6; f.argtypes = [ctypes.c_void_p, ctypes.c_int, ctypes.c_int, ctypes.c_int]
+        g = f(ns.addr, *ijk); bad = []
+        vy = -1.5 * ijk[0] * vals['OMEGA'] * vals['Lx']
+        def far(a, b): return abs(a - b) > 1e-9 * (abs(a) + abs(b)) + 1e-300
+        if far(g.x, ijk[0] * vals['Lx']) or far(g.z, ijk[2] * vals['Lz']) or g.vx != 0 or g.vz != 0 or far(g.vy, vy):
+            bad.append("ghostbox%r = (x=%r, z=%r, v=(%r,%r,%r)), expected x=%r z=%r v=(0,%r,0)" % (tuple(ijk), g.x, g.z, g.vx, g.vy, g.vz, ijk[0] * vals['Lx'], ijk[2] * vals['Lz'], vy))
+        n = (g.y - ijk[1] * vals['Ly'] - vy * vals['t']) / vals['Ly']
+        if abs(n - round(n)) > 1e-6 * (1 + abs(vy * vals['t'] / vals['Ly'])): bad.append("ghostbox%r y = %r is not j*Ly + v_y*t = %r modulo Ly = %r" % (tuple(ijk), g.y, ijk[1] * vals['Ly'] + vy * vals['t'], vals['Ly']))
+        return bool(bad), "native reb_boundary_get_ghostbox (SHEAR): " + ('; '.join(bad) or 'ok')
+    finally:
+        ns.free()
 
 def s32(v):
     return (v - (1 << 32) if v >= (1 << 31) else v) if isinstance(v, int) else v
@@ -475,7 +525,7 @@ def main():
     code = finish(PID, tier, rep, t0,
         bounds=dict(wraps_per_axis=W, particles='1 (wrap), 2..3 (open)', unwinding=W + 4),
         assumptions=['box sizes > 0; positions within (W+1/2) box lengths per axis', 'fmod as its defining relation (integer quotient, remainder with the sign of the dividend)', 'real arithmetic'],
-        outside=['the spatial tree beyond N = 3 particles in one root box (several root boxes, re-insertion across root boxes, quadrupole moments, the collision-search use of the tree)', 'more wraps than W per axis in one call', 'SHEAR: the azimuthal offset bookkeeping y_new - y_old (fmod terms) beyond staying inside the box', 'rounding'],
+        outside=['the spatial tree beyond N = 3 particles in one root box (several root boxes, re-insertion across root boxes, quadrupole moments, the collision-search use of the tree)', 'more wraps than W per axis in one call', 'SHEAR: which representative of the azimuthal offset modulo L_y is chosen (only the residue class and |y| <= L_y/2 are decided)', 'rounding'],
         domain_note='REAL with path forking over the wrap loops')
     sys.exit(code)
 
